@@ -41,9 +41,12 @@ $(B)/asan/%.o: checks/%.cpp | $(B)/asan
 $(B)/trace/%.o: checks/%.cpp | $(B)/trace
 	$(CXX) $(TRACE_FLAGS) -c $< -o $@
 
-# MPI checks see sim/mpi.h instead of the system mpi.h
+# MPI checks see sim/mpi_include/mpi.h instead of the system mpi.h and link the simulated MPI runtime
 $(B)/plain/c11.o $(B)/plain/c12.o: PLAIN_FLAGS += -Isim/mpi_include
-$(B)/plain/c11 $(B)/plain/c12: $(B)/plain/sim_mpi.o
+$(B)/plain/c11: $(B)/plain/c11.o $(PLAIN_SIM) $(B)/plain/sim_mpi.o
+	$(CXX) -no-pie $^ -o $@
+$(B)/plain/c12: $(B)/plain/c12.o $(PLAIN_SIM) $(B)/plain/sim_mpi.o
+	$(CXX) -no-pie $^ -o $@
 
 $(B)/plain/%: $(B)/plain/%.o $(PLAIN_SIM)
 	$(CXX) -no-pie $^ -o $@
